@@ -1,4 +1,4 @@
-import RsjProofs.EvalSafeStep3
+import RsjProofs.EvalSafeStep4
 /-!
   C01 on the evaluator model: every level of the evaluator, every fuel, every request keeps every
   identifier of the store in range and never fails with a modelled panic other than those of
@@ -12,9 +12,9 @@ open Rsj.Core Rsj.Eval Rsj.Eval.Scope
 theorem triple_Q2_mono {α} {x : M α} {P : St → Prop} {s : St} {p q : α → St → Prop}
     (hpq : ∀ a st, p a st → q a st) (h : ⦃fun st => ⌜P st⌝⦄ x ⦃Q2 s p⦄) : ⦃fun st => ⌜P st⌝⦄ x ⦃Q2 s q⦄ := by
   have := sem_of_triple (Qok := fun a st => Le s st ∧ Safe st ∧ p a st)
-    (Qerr := fun e st => Good2 e ∧ Safe st) h
+    (Qerr := fun e st => Good2 e ∧ Safe st ∧ SzLe s st) h
   refine triple_of_sem (Qok := fun a st => Le s st ∧ Safe st ∧ q a st)
-    (Qerr := fun e st => Good2 e ∧ Safe st) ?_
+    (Qerr := fun e st => Good2 e ∧ Safe st ∧ SzLe s st) ?_
   intro st hp
   have h1 := this st hp
   cases hx : x st with
